@@ -738,6 +738,14 @@ def lr_bases():
     out.append(("nullable_tail_position", [Rule("O", Choice(Seq(Call("O", "left", boxed=True), Opt(Seq(Call("M", "op"), Call("N", "right")))),
                                                            Call("N", "num")), export=True, leftrec=True, position=True),
                                            Rule("M", Lit("-")), Rule("N", Lit("n"), position=True)], "O", ["n", "-", " "], True))
+    # the recursive alternative is not the first one, and a seed alternative re-enters the rule at a later offset
+    # (parentheses, a prefix operator) where an earlier non-recursive alternative matches
+    out.append(("recursive_alternative_not_first_nested", [
+        Rule("E", Choice(Call("Neg", "@"), Call("Add", "@"), Call("Par", "@"), Call("N", "@")), export=True, no_skip_ws=True, leftrec=True),
+        Rule("Neg", Seq(Lit("-"), Call("N", "n")), no_skip_ws=True),
+        Rule("Add", Seq(Call("E", "l", boxed=True), Lit("+"), Call("N", "r")), no_skip_ws=True),
+        Rule("Par", Seq(Lit("("), Call("E", "e", boxed=True), Lit(")")), no_skip_ws=True),
+        Rule("N", Lit("1"), no_skip_ws=True, string=True)], "E", ["1", "+", "-", "(", ")"], False))
     # both directives on one rule (redundant but legal: @leftrec implies the cache)
     out.append(("leftrec_and_memoize", [Rule("A", Choice(Seq(Call("A", "l", boxed=True), Lit("x")), Lit("b")),
                                              export=True, no_skip_ws=True, leftrec=True, memoize=True)], "A", ["b", "x", "y"], True))
@@ -1129,6 +1137,24 @@ def fam_user(tier, seed):
         mk("chk_reject_inner_failures_" + kind,
            [Rule("S", Choice(Seq(Call("O", "o"), Lit("!")), Lit("!")), export=True, no_skip_ws=True), orule,
             Rule("AA", Seq(Lit("a"), Clo(Lit("a"))), no_skip_ws=True, string=True), Rule("B", Lit("b"), no_skip_ws=True)], ["a", "b", "!"])
+    # several checks on one rule whose functions have the same name in different modules; the same function on two rules
+    mk("chk_same_name_other_module",
+       [Rule("S", Choice(Call("N", "n"), Call("M", "m"), Call("R", "r")), export=True, no_skip_ws=True),
+        Rule("N", Seq(Lit("a"), Clo(Lit("a"))), no_skip_ws=True, string=True,
+             checks=[{"o": "str_even", "path": "@even::valid", "name": "@even::valid",
+                      "rust": "pub mod even { use super::*; pub fn valid(v: &String) -> bool { logged(\"even::valid\", v, v.len() % 2 == 0) } }"},
+                     {"o": "str_len_le", "n": 2, "path": "@short::valid", "name": "@short::valid",
+                      "rust": "pub mod short { use super::*; pub fn valid(v: &String) -> bool { logged(\"short::valid\", v, v.len() <= 2) } }"}]),
+        Rule("M", Seq(Lit("a"), Clo(Lit("a"))), no_skip_ws=True, string=True,
+             checks=[{"o": "str_len_le", "n": 2, "path": "@short::valid", "name": "@short::valid", "rust": ""}]),
+        Rule("R", Clo(Call("char")), no_skip_ws=True, string=True)], ["a", "b"])
+    # an optional that is abandoned after getting further than where an extern rule then succeeds: the failure stays on record
+    mk("ext_after_abandoned_optional", [Rule("S", Seq(Opt(Seq(Lit("1"), Lit("1"), Lit("1"), Lit("!"))), Call("X2", "d"), Lit(";")), export=True, no_skip_ws=True),
+                                        ext["X2"]], ["1", "!", ";"])
+    mk("ext_in_closure_after_abandoned_iteration", [Rule("S", Seq(Clo(Seq(Call("D", "k"), Lit("="), Call("D", "v"), Lit(","))), Call("D", "last"), Lit("!"), Eoi()),
+                                                         export=True, no_skip_ws=True),
+                                                    ExternRule("D", {"o": "digits", "path": "verif_common::oracles::ext_digits", "nullable": False})],
+       ["1", "=", ",", "!"])
     # a @char rule referenced from another @char rule keeps its checks (two levels deep)
     mk("chk_char_in_char", [Rule("S", Seq(Call("N", "n"), Opt(Call("P", "p")), Opt(Call("V", "v"))), export=True, no_skip_ws=True),
                             CharRule("V", [("range", "a", "z")],
@@ -1300,6 +1326,13 @@ def fam_bad(tier, seed):
                     ch = True
         cyc = any(i in reach[i] for i in range(3))
         mk("R12_incgraph_%s" % "".join(map(str, gr)), rules, "error" if cyc else "code", answer_only=cyc)
+    # a long chain of includes is no cycle
+    for n_ in (20, 120):
+        rules = [Rule("S", Seq(Lit("("), Inc("I0")), export=True)]
+        for i in range(n_):
+            rules.append(Rule("I%d" % i, Seq(Lit("a"), Inc("I%d" % (i + 1))) if i + 1 < n_ else Call("A", "x")))
+        rules.append(A())
+        mk("R12_ok_include_chain_%d" % n_, rules, "code")
     # R12 identifier spellings: the compiler must answer (anything), never panic
     for nm in ("self", "Self", "super", "crate", "1abc", "9"):
         mk("R12_rule_named_%s" % nm, [Rule("S", Call(nm, "x"), export=True), Rule(nm, Lit("a"))], "error", badident=True, answer_only=True)
@@ -1394,11 +1427,18 @@ def fam_term(tier, seed):
               ("a", "a"), ("b", "a"), ("\x7f", "\u0800"), ("\u07ff", "\uffff"), ("\ud7ff", "\ue000"), ("\uffff", "\U00010000"),
               ("\U00010000", "\U0010ffff"), ("\x01", "\U0010fffe"), ("\x00", "a"), ("\x00", "\x00"), ("\U0010ffff", "\U0010ffff"),
               ("\ue000", "\U0010ffff"), ("\x00", "\ud7ff"), ("'", "\\")]
+    ranges += [("\u00c0", "\u00ff"), ("\u0410", "\u044f"), ("\u0080", "\u07ff"), ("\u0800", "\uffff"), ("\u3040", "\u309f"),
+               ("\U0001F600", "\U0001F64F")]
     for lo, hi in ranges:
         body = Seq(Range(lo, hi), Opt(Range(lo, hi)))
         g = Grammar("term_%04d" % len(out), [Rule("S", body, export=True, position=True, no_skip_ws=True)], root="S",
                     maxlen=maxlen, meta={"shape": "range_%r_%r" % (lo, hi)})
         g.alpha = near([lo, hi])[:6]
+        if ord(lo) >= 0x80:
+            # characters of every other width, among them ones whose first bytes decode into the range when the
+            # width is ignored (E3 81 82 ~ C3 81, F0 9F 98 80 ~ D0 9F / E0 9F 98)
+            g.alpha = g.alpha[:4] + ["\u3042", "\U0001F600", "\u00c1", "\u041f", "a"]
+            g.maxlen = 2
         add_extras(g, rnd, 10, 3, 6)
         if well_formed(g):
             out.append(g)
@@ -2101,6 +2141,14 @@ def fam_big(tier, seed):
         mk("%d_memoized_rules" % n, [Rule("S", Choice(*([Seq(Call("M%d" % i, "m"), Lit("!")) for i in range(n)] + [Seq(Call("M%d" % (n - 1), "m"), Lit("?"))])),
                                           export=True, no_skip_ws=True)] + ms,
            ["a", "!", "?", "z"], ["a" + letters[(n - 1) % 26] + "?", "a" + letters[(n - 1) % 26] + "!", "ab!", "aa?", "az?"], maxlen=2)
+    # one field bound in 13 parts of one sequence (plain, optional, closure, choice occurrences): input order
+    num = lambda: Call("N", "items")  # noqa: E731
+    mk("same_field_in_13_parts", [Rule("S", Seq(num(), Lit(","), num(), Lit(","), Opt(Seq(num(), Lit(","))), num(), Lit(","), Clo(Seq(num(), Lit(";"))),
+                                            num(), Lit(","), Choice(Seq(num(), Lit("!")), Seq(num(), Lit("?"))), num(), Opt(num()), num()),
+                                       export=True, no_skip_ws=True),
+                                  Rule("N", Choice(*[Lit(str(i)) for i in range(10)]), string=True, no_skip_ws=True)],
+       [str(i) for i in range(10)] + [",", ";", "!", "?"],
+       ["0,1,2,3,4;5;6,7!890", "0,1,2,3,4,5?67", "0,1,3,4;5;6;7,8!9012"[:20], "0,1,2,3,4!56", "1,2,3,4;5,6?789"], maxlen=1)
     # rule graphs: one rule called from many places, long recursion cycles, diamonds, a rule both included and called
     mk("graph_rule_called_12_times", [Rule("S", Seq(*[Call("A", "f%d" % (i % 5)) if i % 3 else Call("A") for i in range(12)]), export=True, no_skip_ws=True),
                                       Rule("A", Seq(Lit("a"), Opt(Lit("b"))), no_skip_ws=True, position=True, memoize=True)],
